@@ -98,7 +98,7 @@ def byz_request(tape):
         definite = line in (b"GET /", b"GET", b" / HTTP/1.1", b"GET / FTP/1.1", b"\x00\x01\x02", b"get / http/1.1")
         return line + b"\r\nHost: x\r\n\r\n", "request-line-definite" if definite else "request-line"
     if k == 6:
-        body = tape.pick("badbody", [b"\xff\xfe\xfd\xfc", b"\x80abc", b"{\"a\":", b"\xc3\x28"])
+        body = tape.pick("badbody", [b"\xff\xfe\xfd\xfc", b"\x80abc", b"{\"a\":", b"\xc3\x28", b"[" * 1500, b"{\"a\":" * 1200, b"9" * 5000])
         ct = tape.pick("ct", [b"", b"Content-Type: application/json\r\n", b"Content-Type: text/plain; charset=utf-8\r\n"])
         return b"POST /b HTTP/1.1\r\nHost: x\r\n" + ct + b"Content-Length: %d\r\n\r\n" % len(body) + body, "bad-body"
     if k == 7:
@@ -158,7 +158,8 @@ def byz_response(tape, port2):
         cl = tape.pick("cl", [b"-1", b"abc", b"+2", b"2, 2", b"\xb2", b"\xa02", b"2\x85"])
         return b"HTTP/1.1 200 OK\r\nContent-Length: " + cl + b"\r\nConnection: close\r\n\r\nok", "content-length", False
     if k == 10:
-        return b"HTTP/1.1 200 OK\r\nContent-Type: application/json\r\nContent-Length: 4\r\n\r\n\xff\xfe{]", "bad-json", False
+        bj = tape.pick("badjson", [b"\xff\xfe{]", b"[" * 1500, b"{\"a\":" * 1200, b"9" * 5000, b"[" * 1500 + b"]" * 1500])
+        return b"HTTP/1.1 200 OK\r\nContent-Type: application/json\r\nContent-Length: %d\r\n\r\n" % len(bj) + bj, "bad-json", False
     if k == 11:
         end = tape.pick("cend", [b"XX\r\n", b"\n"])
         return b"HTTP/1.1 200 OK\r\nTransfer-Encoding: chunked\r\n\r\n3\r\nabc" + end + b"0\r\n\r\n", "chunk-end", True
